@@ -92,7 +92,21 @@ ReportsOK(e, c, S) ==
   /\ LET ra == RecFold(t.rec, CycleEvs(c.tasks, FALSE, 1), 1)
          rb == RecFold(t.rec, CycleEvs(c.tasks, TRUE, 1), 1)
          lg == DecRec(e.rec)
-     IN DOMAIN lg = DOMAIN ra /\ \A a \in DOMAIN lg : lg[a] \in {ra[a], rb[a]}
+         \* The property fixes the change reports (write / increment / decrement), the pops and the terminations; WHICH reads
+         \* are announced it leaves open.  With a recorder that records reads, an address may therefore also show a read mark
+         \* of a warrior one of whose tasks in this cycle reads that cell (operand, pointer or instruction cell of the
+         \* reference semantics; possibly a cell the same task has just changed), provided no later task of the cycle pops, changes or dies on it; and a
+         \* read the reference stream contains may be left out.
+         n  == Len(c.tasks)
+         Hard(s) == {s.pc} \cup EvTouched(s.ev) \cup (IF s.op \in {"DIV","MOD"} THEN {s.wab} ELSE {})
+         ReadMarkOK(a, w) == \E k \in 1..n : /\ c.tasks[k].w = w /\ a \in c.tasks[k].reads
+                                              /\ \A j \in (k+1)..n : a \notin Hard(c.tasks[j])
+         NoRead(ev) == SelectSeq(ev, LAMBDA x : x[1] # "Read")
+         rc == RecFold(t.rec, NoRead(CycleEvs(c.tasks, FALSE, 1)), 1)
+         rd == RecFold(t.rec, NoRead(CycleEvs(c.tasks, TRUE, 1)), 1)
+     IN DOMAIN lg = DOMAIN ra /\ \A a \in DOMAIN lg :
+          \/ lg[a] \in {ra[a], rb[a]}
+          \/ t.reads /\ (lg[a] \in {rc[a], rd[a]} \/ (lg[a][1] = 5 /\ ReadMarkOK(a, lg[a][2])))
 
 \* ---------------------------------------------------------------- query calls (C13)
 QryOK(e, X, stale) ==
